@@ -269,7 +269,7 @@ def not_direction(i):
 @contract
 class PPkey:
     fn = "dialects.sql.BaseSQL.p_pkey"
-    props = ["C02"]
+    props = ["C02", "C06", "C12"]
     observable = "result"
     cases = {"pkey_statement LP pid RP": {}}
     loops = {"dialects.sql.BaseSQL.process_order_in_pk#0": dict(inv="inv_cols", temps=["item"])}
